@@ -75,6 +75,22 @@ _UNKNOWN_BOOL = re.compile(r"^(truth|isnone|cmp|in|callable|isinstance|hasattr|i
 _ATTR_SRC = re.compile(r"^int_from_input\[(.*)\]!\d+$")
 
 
+def _attr_sources(term):
+    """-> (input attributes an integer term is computed from, names of its other free constants)."""
+    srcs, other = set(), []
+
+    def visit(x):
+        if x.num_args() == 0 and x.decl().kind() == z3.Z3_OP_UNINTERPRETED:
+            m = _ATTR_SRC.match(x.decl().name())
+            if m:
+                srcs.update(a for a in m.group(1).split("+") if a)
+            else:
+                other.append(x.decl().name())
+        return False
+    _mentions([term], visit)
+    return srcs, other
+
+
 class AmpExecutor(readfile.ReadFileExecutor):
     """Adds the amplification obligation at every repetition with a symbolic count."""
 
@@ -150,6 +166,17 @@ class AmpExecutor(readfile.ReadFileExecutor):
         base = super().merge_states(states)
         if len(states) > 1:
             base.assume(JOINED)
+            # an integer that differs between the joined states is widened to an arbitrary integer (not to an unknown value) and
+            # keeps the input attributes it was read from: `n = 1 if raw is None else int(raw)`
+            for fi, fr in enumerate(base.frames):
+                for name, v in list(fr.env.items()):
+                    if isinstance(v, VUnk) and (getattr(v, "tag", "") or "").startswith("merge:"):
+                        vals = [s.frames[fi].env.get(name) if fi < len(s.frames) else None for s in states]
+                        if all(isinstance(x, VInt) and not x.is_bv for x in vals):
+                            srcs = set()
+                            for x in vals:
+                                srcs |= _attr_sources(x.t)[0]
+                            fr.env[name] = VInt(z3.Int(fresh_name(f"int_from_input[{'+'.join(sorted(srcs))}]" if srcs else "int_of_unknown")))
         return base
 
     def havoc_call(self, st, what, args, node):
@@ -209,13 +236,10 @@ class AmpExecutor(readfile.ReadFileExecutor):
                 seq_like = isinstance(seq, (VStr, VTuple)) or (isinstance(seq, VRef) and st.obj(seq.ref).kind in ("list", "bytearray"))
                 if seq_like and isinstance(n, (VInt, VUnk)) and (isinstance(n, VUnk) or n.const() is None):
                     nt = ops.int_term(n) if isinstance(n, VInt) else z3.Int(fresh_name("int_of_unknown"))
-                    srcs, unknown_src = set(), []
-                    _mentions([nt], lambda x: x.num_args() == 0 and x.decl().kind() == z3.Z3_OP_UNINTERPRETED and
-                              (srcs.add(_ATTR_SRC.match(x.decl().name()).group(1)) if _ATTR_SRC.match(x.decl().name()) else unknown_src.append(x.decl().name())) and False)
+                    srcs, unknown_src = _attr_sources(nt)
                     goal = nt <= REPEAT_CAP
                     if unknown_src:
                         goal = z3.Or(goal, NOTDEF)      # a count of unknown origin (result of an unmodelled call, a joined value)
-                    srcs.discard("")
                     key = "repeat-site" + (f"[{'+'.join(sorted(srcs))}]" if srcs else "")
                     # provisional label with the source position; `post_report` turns positions into ordinals per key
                     self.add_vc("amp-bounded", f"{key}@{getattr(node, 'lineno', 0):06d}:{getattr(node, 'col_offset', 0):04d}", st.pc, goal,
@@ -478,7 +502,7 @@ def contracts(reg):
         raises=[Raises("Exception", sub=True)],
         note="amplification obligations at the repeated-cell / repeated-row expansion sites",
     ))
-    EXECUTOR_KW[f"{ODS}::_extract_sheet"] = {"abstract": True, "inline_calls": False, "merge": True, "inline_local": True, "only_repeat_helpers": True}
+    EXECUTOR_KW[f"{ODS}::_extract_sheet"] = {"abstract": True, "inline_calls": False, "merge": True, "inline_local": True}
     return out
 
 
